@@ -822,15 +822,20 @@ def gen_world_case(rng: random.Random, n_ev: int):
         from srctools import instancing
         from srctools.math import Matrix
         s, dest = rng.sample(range(3), 2)
-        nb0, ne0 = len(maps[dest].brushes), len(maps[dest].entities)
+        keep_vis = rng.random() < 0.4       # visgroup=True: the visgroup trees of the instance map are copied as well
+        nb0, ne0, nv0 = len(maps[dest].brushes), len(maps[dest].entities), len(maps[dest].vis_tree)
         srcs = list(maps[s].brushes) + list(maps[s].entities)
+        vsrcs = list(maps[s].vis_tree)
         inst = instancing.Instance('inst', '', Vec(16, 0, 0), Matrix())
-        instancing.collapse_one(maps[dest], inst, instancing.InstanceFile(maps[s]))
+        instancing.collapse_one(maps[dest], inst, instancing.InstanceFile(maps[s]), visgroup=keep_vis)
         news = maps[dest].brushes[nb0:] + maps[dest].entities[ne0:]
+        for vo, vc in zip(vsrcs, maps[dest].vis_tree[nv0:]):
+            gt = next(t for t in gtops if t['obj'] is vo)
+            gtops.append({'kind': 'vis', 'obj': vc, 'tree': track_vis_copy(gt['tree'], vc, dest, -1), 'home': dest, 'inmap': True})
         for so, c in zip(srcs, news):
             t = next(t for t in tops if t['obj'] is so)
             tops.append(track_top_copy(t, c, dest, -1, True))
-        desc.append(('collapse', s, dest, len(news), len(srcs)))
+        desc.append(('collapse', s, dest, len(news), len(srcs), keep_vis, len(maps[dest].vis_tree) - nv0))
         tev.append(f'TCollapse {s}%nat {dest}%nat')
 
     for _ in range(n_ev):
